@@ -11,7 +11,17 @@ Everything a server answers is universally quantified: `Script` = any sequence o
 a `View` holding arbitrary version / offset table / UEB bytes / hash values / block bytes, fresh for every
 pass.  `decode` (zfec) and `pick` (set.pop order inside hashtree.py) are arbitrary functions.
 The ciphertext is arbitrary, in particular `ct = AES-CTR(key, pt)`; `read_prefix_correct_plaintext` states the
-consumer-side (decrypted) version with CTR as a position-wise xor. -/
+consumer-side (decrypted) version with CTR as a position-wise xor.
+
+As built: 14 theorems. End to end: `delivered_segment_genuine`, `read_prefix_correct`,
+`read_prefix_correct_plaintext` (any segment-size guess, both retry paths). Per share region: `forged_ueb_rejected`,
+`wrong_encoding_rejected`, `bad_header_rejected`, `share_chain_stage_sound`, `block_root_anchored`,
+`block_hash_tree_stage_sound`, `accepted_block_genuine`, `ct_hash_stage_sound`. Over histories of the node:
+`rejected_share_cannot_poison_node` (`NodeInv`), `accepted_block_genuine_history` (`ShInv`, LemmasChain.lean).
+Helper lemmas: Tahoe/Immutable/Lemmas{Integrity,Verify,Blocks,Chain}.lean. Driver lean/Drv/C02.lean (`offsets`,
+`gotseg`, `dl`, `dlseq`, `sat`) runs the chain on real share bytes (IntegrityBytes.lean). The defect found with this
+property (endless request loop on a share truncated inside its header) is repaired in /repo (ea42624). Still outside:
+termination / availability (C46, C03); the DecryptingConsumer's counter arithmetic is not transcribed. -/
 /-! ## Coverage of the statement (properties.jsonl, C02)
 
 | clause of the statement | theorem(s) over the model |
